@@ -58,6 +58,10 @@ CLAIMED = {
    "Structural conditions decided on every run: the command adds a result only after Filter.Apply kept that same result, parses all projection flags with one parser before taking the residue, and hands ToTables the scanned Files' unit metadata; Builder.Add appends exactly one value per measurement, the measurement at the iteration's index, to the cell found or created under the iteration's table key and the result's (row, column) key (all paths of one iteration enumerated); the baseline is element 0 of the sorted columns, linked per row, and Compare/FormatDelta receive (baseline, cell) in that order in both renderers; the assumption is chosen from the table key's unit; the column summary's per-row decision table and ratio formula; key identity of interning (shared with C08); unit metadata survives from file to file.",
    "Does not decide that keys partition results correctly beyond interning identity (C08), nor the statistics themselves (C13, go-moremath). Trusted: go/types, go/ssa.",
    "path enumeration by abstract interpretation + dominance/guard rules + rational identity for the ratio"),
+ "C02": ("DESIGN.md §4 C02",
+   "Structural conditions decided on every run: Clone gives every reference-typed component of Result and of Config elements (enumerated from the struct types) a fresh allocation or nil, with pointer provenance followed through copied structs; scanner bytes and their sub-slices (taint propagated through the package's helpers to a fixpoint) reach persistent state only via element copies or string conversions, Result.Name being the one documented view; every change of Config's length on an existing Result maintains the key index and only the reviewed functions write it; Reset re-initialises every field of the reader (enumerated) except the two persistent tables, which are created only when absent; Files resets before scanning each file with the .file label and never replaces its reader; call-free scanning loops advance on every back edge; the key/value recogniser uses exactly the documented predicates and agrees with its legacy sibling.",
+   "Does not decide the line classifier's exact language, numeric fields (C03), label disambiguation arithmetic, or absence of index panics. Trusted: go/types, go/ssa.",
+   "type-driven exhaustiveness + forward taint over SSA + pairing/dominance rules"),
 }
 
 NOT_YET = "check not built yet in this round (planned in DESIGN.md); not claimed until its rules run clean on the unchanged tree"
